@@ -73,11 +73,13 @@ Print Assumptions C20_pending_requests_fail.
 
 (* ... and every broker-agnostic operation in progress is told in that step that it has ended, with ClientError,
    KafkaUnavailableError or CancelledError - or with the None of finding F-C20-2 (load_metadata_for_topics; exactly when:
-   C20_pending_fail_refuted and the Examples); never with a response. *)
+   C20_pending_fail_refuted and the Examples) - or with twisted's CancelledError, exactly for a _load_topic_partitions
+   waiting in its retry back-off: close() cancels that deferLater (registered with _cancel_on_close since /repo 33a3ade,
+   finding F-C20-3); never with a response. *)
 Theorem C20_pending_operations_end : forall g evs cl C' o p,
   c_clients (fst (run (init g) evs)) = Some cl -> step (fst (run (init g) evs)) EClose = (C', o) ->
   phase_of (fst (run (init g) evs)) p <> PDone ->
-  exists r, In (OOp p r) o /\ (r = RClosed \/ r = RUnavail \/ r = RKCancelled \/ r = ROpNone).
+  exists r, In (OOp p r) o /\ (r = RClosed \/ r = RUnavail \/ r = RKCancelled \/ r = ROpNone \/ r = RCancelled).
 Proof. exact c20_pending_operations_end. Qed.
 Print Assumptions C20_pending_operations_end.
 
@@ -175,6 +177,25 @@ Qed.
 Print Assumptions C20_close_waits_bootstrap_refuted.
 
 (* ------------------------------------------------------------------ non-vacuity *)
+(* F-C20-3 (repaired in /repo 33a3ade) inside the model: _load_topic_partitions (EOp 2) gets a response naming a topic
+   without partitions (abstract topic id 5) and waits in its retry back-off (DelayedCall 1, retry_policy(1)); close()
+   cancels that DelayedCall and the operation fails at once with CancelledError; nothing is left armed
+   (C20_pending_operations_end, C20_no_timers_after_close apply to it) ... *)
+Example close_during_retry_backoff :
+  snd (run (init (mkCfg 5000 false 0 0 [1])) [EOp 2 false; EBootOk 0; EBootReply 0 1 [0; 1; 5]; EClose])
+  = [OBootConnect 0 1; OBootWrite 0 1; OSched 0 2 5000; OCancelTimer 0; OBootLose 0; OSched 1 1 1;
+     OCancelTimer 1; OOp 0 RCancelled; OCloseFired]
+  /\ count_timers (fst (run (init (mkCfg 5000 false 0 0 [1])) [EOp 2 false; EBootOk 0; EBootReply 0 1 [0; 1; 5]])) = 1%nat
+  /\ count_timers (fst (run (init (mkCfg 5000 false 0 0 [1])) [EOp 2 false; EBootOk 0; EBootReply 0 1 [0; 1; 5]; EClose])) = 0%nat.
+Proof. vm_compute. repeat split. Qed.
+
+(* ... and without close() the back-off ends, the next attempt takes a fresh correlation id and succeeds *)
+Example retry_after_backoff :
+  snd (run (init (mkCfg 5000 false 0 0 [1])) [EOp 2 false; EBootOk 0; EBootReply 0 1 [0; 1; 5]; ETimer 1; EBootOk 1; EBootReply 1 2 [0; 1; 0]])
+  = [OBootConnect 0 1; OBootWrite 0 1; OSched 0 2 5000; OCancelTimer 0; OBootLose 0; OSched 1 1 1;
+     OBootConnect 1 1; OBootWrite 1 2; OSched 2 2 5000; OCancelTimer 2; OBootLose 1; OOp 0 RSnap].
+Proof. vm_compute. reflexivity. Qed.
+
 Definition ex_cfg := mkCfg 5000 false 0 0 [1; 2].
 
 (* two brokers with a request in flight each; a full metadata refresh drops broker 1 (its request fails, its connection is
